@@ -133,6 +133,30 @@ class Sim(object):
             self.classes[cname] = self.build_class(cname, cspec, True)
             self.twins[cname] = self.build_class(cname + 'Twin', cspec, False)
 
+    def store_digest(self):
+        """digest of everything the cassette holds (serialized form)"""
+        import hashlib
+        h = hashlib.sha1()
+        inner = self.spy.inner
+        kind = self.case.get('cassette', 'memory')
+        if kind == 'memory':
+            for k in sorted(inner._recordings):
+                h.update(k.encode('utf-8'))
+                h.update(inner._recordings[k].encode('utf-8'))
+        elif kind == 'file':
+            for f in sorted(os.listdir(inner.directory)):
+                h.update(f.encode('utf-8'))
+                with open(os.path.join(inner.directory, f), 'rb') as fh:
+                    h.update(fh.read())
+        else:
+            from harness import fake_s3
+            st = fake_s3.store('bucket')
+            for k in sorted(st.objects):
+                h.update(k.encode('utf-8'))
+                h.update(st.objects[k][0])
+            h.update(repr(len(st.log)).encode())
+        return h.hexdigest()
+
     def fresh_recorder(self):
         """a brand new TapeRecorder over the same cassette, PRNG script and clock; class parameters re-registered"""
         from playback.tape_recorder import TapeRecorder
@@ -508,6 +532,7 @@ class Sim(object):
                 def playback_function(recording):
                     target = cls if cspec.get('classLevel') else cls()
                     return target.execute(script)
+                digest_before = self.store_digest()
                 try:
                     pb = tr.play(real, playback_function)
                     result = ['played', self.outputs(pb.playback_outputs), self.outputs(pb.recorded_outputs)]
@@ -519,7 +544,8 @@ class Sim(object):
                     result = ['interrupted', type(ex).__name__]
                 stored = sum(1 for k, _ in spy.log if k == 'save')   # informative only
                 out.append({'result': result, 'journal': ctx.journal, 'log': self.log_since(log0), 'idle': self.idle(),
-                            '_outcomes': ctx.outcomes, '_stored_calls': stored})
+                            '_outcomes': ctx.outcomes, '_stored_calls': stored,
+                            '_store_unchanged': digest_before == self.store_digest()})
         return out
 
 
